@@ -580,21 +580,44 @@ def r7_converters_total(facts):
     return out
 
 
+def _bank_copier(facts):
+    """(function that copies the banks of the parsed file into the map, calls of it): the LoadBank overload with the conversion
+    loop, or a local helper of LoadBank that does the copying bank set by bank set"""
+    fns = [f for f in facts.fns.get('OPNMIDIplay::LoadBank', []) if f.tree is not None and any(short(callee_name(x)) == 'cvt_generic_to_FMIns' for b, j, st in f.cfg.stmts() for x in calls_in(st['s']))]
+    call_sites = []
+    if not fns:
+        for lbf in facts.fns.get('OPNMIDIplay::LoadBank', []):
+            if lbf.tree is None:
+                continue
+            for x in calls_in(lbf.tree):
+                for cf in facts.fns.get(callee_name(x), [])[:1]:
+                    if is_local_helper(lbf, cf) and any(short(callee_name(y)) == 'cvt_generic_to_FMIns' for y in calls_in(cf.tree)):
+                        if cf not in fns:
+                            fns.append(cf)
+                        call_sites.append(x)
+    return fns, call_sites
+
+
 def r8_load_all(facts):
     """"a lookup finds a bank exactly if it was created or loaded": LoadBank must copy all banks of the parsed WOPNFile.  The loop
     that walks a bank array (`src[set][i]`) is bounded by the matching parsed count - banks_count_melodic / banks_count_percussion,
     directly or through the local array initialised from them - and by nothing smaller (a set can address 128 x 128 banks)."""
     out = []
-    fns = [f for f in facts.fns.get('OPNMIDIplay::LoadBank', []) if f.tree is not None and any(short(callee_name(x)) == 'cvt_generic_to_FMIns' for b, j, st in f.cfg.stmts() for x in calls_in(st['s']))]
+    fns, call_sites = _bank_copier(facts)
     if not fns:
         raise build.AnalysisBroken('C16.R8: the LoadBank overload that copies the banks not found')
     fn = fns[0]
+    pidx = {p_['id']: i_ for i_, p_ in enumerate(fn.params)}
+    def kind_of(e):
+        ms = [short(y.get('n', '')) for y in walk(e) if isinstance(y, dict) and y.get('k') == 'MemberExpr' and short(y.get('n', '')).startswith('banks_')]
+        return ('melodic' if 'melodic' in ms[0] else 'percussive') if len(ms) == 1 else None
     inits = {}
     for b, j, st in fn.cfg.stmts():
         if st['s'].get('k') == 'DeclStmt':
             for v in st['s']['decls']:
                 if v.get('init') is not None:
                     inits[v['id']] = v['init']
+    arr_param = None
     def is_count(e, depth=0):
         e = strip(e)
         if e is None:
@@ -607,6 +630,11 @@ def r8_load_all(facts):
                 # every element of the local array is a parsed count
                 elems = [y for y in walk(inits[base['id']]) if isinstance(y, dict) and y.get('k') == 'MemberExpr']
                 return bool(elems) and all(short(y.get('n', '')).startswith('banks_count_') for y in elems)
+        if e.get('k') == 'DeclRefExpr' and e.get('id') in pidx and call_sites and arr_param is not None:
+            # a count parameter of the helper: at every call it is the parsed count of the bank set that is passed along with it
+            return all(len(c_.get('a', [])) > max(pidx[e['id']], pidx[arr_param]) and strip(c_['a'][pidx[e['id']]]).get('k') == 'MemberExpr' and
+                       short(strip(c_['a'][pidx[e['id']]])['n']).startswith('banks_count_') and
+                       kind_of(c_['a'][pidx[e['id']]]) is not None and kind_of(c_['a'][pidx[e['id']]]) == kind_of(c_['a'][pidx[arr_param]]) for c_ in call_sites)
         if depth < 2 and e.get('k') == 'DeclRefExpr' and not e.get('parm') and e.get('id') in inits:
             i_ = strip(inits[e['id']])
             return is_count(i_, depth + 1) and i_.get('k') in ('MemberExpr', 'ArraySubscriptExpr')
@@ -621,9 +649,10 @@ def r8_load_all(facts):
         iv = strip(c['l'])
         # the loop variable selects a bank of a source array: src[..][iv]
         uses = [y for y in walk(x.get('body')) if isinstance(y, dict) and y.get('k') == 'ArraySubscriptExpr' and strip(y.get('i')).get('id') == iv.get('id') and
-                strip(y.get('b')).get('k') == 'ArraySubscriptExpr']
+                (strip(y.get('b')).get('k') == 'ArraySubscriptExpr' or (strip(y.get('b')).get('k') == 'DeclRefExpr' and strip(y.get('b')).get('id') in pidx and 'WOPNBank' in ((strip(y.get('b')).get('t') or {}).get('s') or '')))]
         if not uses:
             continue
+        arr_param = strip(uses[0].get('b')).get('id') if strip(uses[0].get('b')).get('k') == 'DeclRefExpr' else None
         n += 1
         ok = is_count(c['r'])
         out.append(Obl('C16.R8', fn.name, 'bank loop %s' % show(c)[:50], '%s:%s' % (fn.file, x.get('ln')), 'discharged' if ok else 'finding',
@@ -640,7 +669,7 @@ def r9_file_keys(facts):
     percussive bank of that number), a melodic LSB >= 128 gives a key no identifier names.  In LoadBank the MSB factor of `* 256` is
     masked with 0x7F, and the LSB term is masked unless the set is the percussive one (XG SFX kits use 128..255)."""
     out = []
-    fns = [f for f in facts.fns.get('OPNMIDIplay::LoadBank', []) if f.tree is not None and any(short(callee_name(x)) == 'cvt_generic_to_FMIns' for b, j, st in f.cfg.stmts() for x in calls_in(st['s']))]
+    fns, _cs = _bank_copier(facts)
     if not fns:
         raise build.AnalysisBroken('C16.R9: LoadBank not found')
     fn = fns[0]
